@@ -15,6 +15,17 @@ def plan(tier, seed):
     shards = [dict(bin=("opt", "c16"), args=opt_args) for _ in range(nshards)]
     # sanitizer sample: same oracle under ASan+UBSan with the repository's asserts
     shards.append(dict(bin=("asan", "c16"), args=asan + ["--iters", 4], shard=nshards))
+    # coverage-guided search over games (src/fuzz/c16_bound.cpp): one byte per ply selects the move; the bound / computeBlocked
+    # oracle of sub 'games' on every prefix.  Seeded from corpus/c16_bound (merged corpus of earlier campaigns).
+    fuzz_runs = 12000 if quick else 500000
+    nfuzz = 2 if quick else 5
+    for j in range(nfuzz):
+        cmd = ["python3", "{verif}/tools/fuzzshard.py", "--prop", ID, "--target", "c16_bound", "--build", "{build}",
+               "--verif", "{verif}", "--part", "{part}", "--found", "{found}", "--work", "{work}",
+               "--seed", "{seed}", "--shard", str(700 + j), "--runs", str(fuzz_runs), "--max-len", "150", "--minimize-runs", "0"]
+        if (not quick) and j == nfuzz - 1:
+            cmd.append("--empty-corpus")
+        shards.append(dict(cmd=cmd))
     floors_q = {
         "games: game with >=1 promotion": 400,
         "games: e.p. right in the final position": 150,
@@ -31,19 +42,20 @@ def plan(tier, seed):
     floors_t["short: proof games replayed in refchess"] = 20000
     floors_t["iter: proof games replayed in refchess"] = 1000
     return dict(
-        builds=[("opt", "c16"), ("asan", "c16")],
+        builds=[("opt", "c16"), ("asan", "c16"), ("fuzz", "c16_bound")],
         replay_bin=("opt", "c16"),
         shards=shards,
         timeout=1800 if quick else 8 * 3600,
         rule=("random legal games from the standard initial position, 1..150 plies, eight move-choice themes (uniform, "
-              "develop+castle, promotion race, e.p., king/rook out and home, quiet, captures, pawns) with changes of mood; "
+              "develop+castle, promotion race, e.p., king/rook out and home, quiet, captures, pawns, scripted openings, castle-then-the-castled-rook-is-captured) with changes of mood; "
               "after the 6th capture only non-capturing moves are chosen (the game ends if none is legal), so the final "
               "position has >= 26 men by construction; with probability 1/3 the final move is a double push beside an enemy "
               "pawn. sub 'games': first pass of ProofGameFilter on the final FEN (e.p. field only when an e.p. capture is "
               "legal) + lower bound / computeBlocked on every prefix of the game; sub 'short': games of <= 12 plies, "
               "exhaustive ProofGame::search with weights 1:1 + up to 4 filter iterations; sub 'iter': up to 4 filter "
               "iterations (kernel, path, proof game with the filter's own node budgets) on final FENs of full games. "
-              "evaluations = games. Non-trivial = game (distinct by sub + final FEN) with >= 1 promotion, an e.p. right in "
+              "libFuzzer shards (c16_bound): games decoded from bytes (byte mod number of legal moves, <= 6 captures, <= 150 plies), same bound / "
+              "computeBlocked oracle on every prefix, coverage-guided. evaluations = games. Non-trivial = game (distinct by sub + final FEN) with >= 1 promotion, an e.p. right in "
               "the final position, >= 3 captures, or a castling right lost with king and rook on their home squares."),
         floors=floors_q if quick else floors_t,
         assumptions=[
@@ -51,7 +63,7 @@ def plan(tier, seed):
             "domain: positions with >= 26 men reached by a legal game from the standard initial position; FEN with the e.p. target only when an e.p. capture is legal (ProofGame rejects any other spelling as 'Lossy FEN conversion')",
             "'unknown' verdicts and exhausted node budgets are inconclusive, never violations; nothing is demanded about the length of a proof game",
             "bound <= remaining plies is not demanded for games whose final double push leaves a non-capturable e.p. square (texel's search does not identify that position with the goal)",
-            "known-finding class D8-castling-bound: overshoot <= 4 plies with a castling move in the continuation; counted, excluded from the search, reported with key D8-castling-bound",
+            "class D8-castling-bound (overshoot <= 4 plies with a castling move in the continuation) is collected and reported at the end of a shard; D8 is fixed, so any member is a VIOLATION",
             "opt build with assert() enabled; one extra shard under ASan+UBSan",
         ],
     )
